@@ -284,3 +284,13 @@ package j5convert
 //@   |   && *vstr(result0.Options).Pattern == as(*schema_j5pb.KeyFormat_Custom_, keyField(node).Format.Type).Custom.Pattern
 //@   ensures enum.defined: result1 == nil && typeis(node.Schema, *schema_j5pb.Field_Enum) ==> vrules(result0.Options) != nil && typeis(vrules(result0.Options).Type, *validate.FieldConstraints_Enum)
 //@   |   && as(*validate.FieldConstraints_Enum, vrules(result0.Options).Type).Enum != nil && as(*validate.FieldConstraints_Enum, vrules(result0.Options).Type).Enum.DefinedOnly != nil && *as(*validate.FieldConstraints_Enum, vrules(result0.Options).Type).Enum.DefinedOnly
+
+// arrays and required members (C12): the declared item-count rules and the required flag reach the
+// compiled constraint whatever the item type is
+//@ spec func arrField(node *sourcewalk.PropertyNode) *schema_j5pb.ArrayField = as(*schema_j5pb.Field_Array, node.Field.Schema).Array
+//@ spec func vrep(o *descriptorpb.FieldOptions) *validate.RepeatedRules = as(*validate.FieldConstraints_Repeated, vrules(o).Type).Repeated
+//@ func buildProperty
+//@   ensures array.rules: result1 == nil && typeis(node.Field.Schema, *schema_j5pb.Field_Array) && arrField(node) != nil && arrField(node).Rules != nil ==>
+//@   |   vrules(result0.Options) != nil && typeis(vrules(result0.Options).Type, *validate.FieldConstraints_Repeated) && vrep(result0.Options) != nil
+//@   |   && vrep(result0.Options).MinItems == arrField(node).Rules.MinItems && vrep(result0.Options).MaxItems == arrField(node).Rules.MaxItems && vrep(result0.Options).Unique == arrField(node).Rules.UniqueItems
+//@   ensures required: result1 == nil && node.Schema.Required ==> vrules(result0.Options) != nil && vrules(result0.Options).Required != nil && *vrules(result0.Options).Required
